@@ -14,29 +14,13 @@ def evaluate(ctx, cases, label="cases", shards=12, timeout=3000):
     """cases: list of {"engine": EDL, "rows": [[X..]..]} -> dict (case index, k) -> obs (k = 1..len(rows))"""
     if not cases:
         return {}
-    shards = max(1, min(shards, len(cases)))
-    # balance by number of rows
-    order = sorted(range(len(cases)), key=lambda i: -len(cases[i]["rows"]))
-    buckets = [[] for _ in range(shards)]
-    loads = [0] * shards
-    for i in order:
-        j = loads.index(min(loads))
-        buckets[j].append(i)
-        loads[j] += len(cases[i]["rows"]) * (1 + sum(len(b["rules"]) for b in cases[i]["engine"]["blocks"]))
     for i, c in enumerate(cases):
         c["id"] = i
-
-    def one(j):
-        return ctx.tlc_cases("Gen_Engine", None, [cases[i] for i in buckets[j]], label=f"{label}{j}", workers=1, timeout=timeout,
-                             tag=f"{ctx.pid}-{label}{j}", heap="3g")
-
-    with ThreadPoolExecutor(max_workers=shards) as ex:
-        runs = list(ex.map(one, range(shards)))
+    runs = ctx.tlc_cases("Gen_Engine", None, cases, label=label, workers=16, timeout=timeout, tag=f"{ctx.pid}-{label}", heap="8g")
     res = {}
-    for j, rs in enumerate(runs):
-        for r in rs:
-            if r.violated:
-                raise MachineryError(f"Gen_Engine: model invariant {r.violated} violated on shard {j} ({label})\n{r.trace[:2500]}")
-            for rec in r.emitted:
-                res[(rec["cid"], rec["k"])] = rec["obs"]
+    for r in runs:
+        if r.violated:
+            raise MachineryError(f"Gen_Engine: model invariant {r.violated} violated ({label})\n{r.trace[:2500]}")
+        for rec in r.emitted:
+            res[(rec["cid"], rec["k"])] = rec["obs"]
     return res
